@@ -933,6 +933,20 @@ func ruleDriver(p *Program, r *Reporter) {
 		}
 		// (2) -no-optimizer reaches Prepare as NoOptimize
 		field := flagField["no-optimizer in "+recvName(fn)]
+		noOptFields := map[string]bool{}
+		if field != "" {
+			noOptFields[field] = true
+		} else if fn.Signature.Recv() == nil {
+			// a stage of the sub-command that is a plain function: the flag
+			// reaches it as a parameter, from whichever sub-command calls it
+			for k, f := range flagField {
+				if strings.HasPrefix(k, "no-optimizer in ") && f != "" {
+					noOptFields[f] = true
+					field = f
+				}
+			}
+		}
+		isFlag := func(v ssa.Value) bool { return carriesFlag(p, v, noOptFields, 0, map[ssa.Value]bool{}) }
 		if field == "" {
 			r.Fail(base+"/-no-optimizer reaches Prepare", p.Pos(fn.Pos()), "this sub-command prepares a script but registers no -no-optimizer flag")
 		} else {
@@ -958,7 +972,7 @@ func ruleDriver(p *Program, r *Reporter) {
 								// control: dominated by the true edge of a load of the flag field
 								for d := ap.Block(); d.Idom() != nil; d = d.Idom() {
 									if iff, ok := terminator(d.Idom()).(*ssa.If); ok {
-										if u, ok := iff.Cond.(*ssa.UnOp); ok && u.Op == token.MUL && fieldKey(u.X) == field && d.Idom().Succs[0] == d {
+										if d.Idom().Succs[0] == d && isFlag(iff.Cond) {
 											reaches = true
 										}
 									}
@@ -2040,4 +2054,191 @@ func restoresRead(c *ssa.Call) bool {
 	k1, ok1 := get.Call.Args[1].(*ssa.Const)
 	k2, ok2 := c.Call.Args[1].(*ssa.Const)
 	return ok1 && ok2 && k1.Value != nil && k2.Value != nil && k1.Value.ExactString() == k2.Value.ExactString()
+}
+
+// carriesFlag: the value is the content of one of the flag-bound fields —
+// loaded from it directly, or copied into a field of an options struct, or
+// handed on as an argument, by every route the value can have come.
+func carriesFlag(p *Program, v ssa.Value, fields map[string]bool, depth int, seen map[ssa.Value]bool) bool {
+	if v == nil || depth > 8 || seen[v] {
+		return false
+	}
+	seen[v] = true
+	switch x := v.(type) {
+	case *ssa.UnOp:
+		if x.Op != token.MUL {
+			return false
+		}
+		if fields[fieldKey(x.X)] {
+			return true
+		}
+		if fa, ok := x.X.(*ssa.FieldAddr); ok {
+			vals, ok := structFieldSources(p, fa.X, fa.Field, true, 0)
+			if !ok || len(vals) == 0 {
+				return false
+			}
+			for _, w := range vals {
+				if !carriesFlag(p, w, fields, depth+1, seen) {
+					return false
+				}
+			}
+			return true
+		}
+		if al, ok := x.X.(*ssa.Alloc); ok && al.Referrers() != nil {
+			n := 0
+			for _, ref := range *al.Referrers() {
+				if st, ok := ref.(*ssa.Store); ok && st.Addr == ssa.Value(al) {
+					n++
+					if !carriesFlag(p, st.Val, fields, depth+1, seen) {
+						return false
+					}
+				}
+			}
+			return n > 0
+		}
+	case *ssa.Field:
+		vals, ok := structFieldSources(p, x.X, x.Field, false, 0)
+		if !ok || len(vals) == 0 {
+			return false
+		}
+		for _, w := range vals {
+			if !carriesFlag(p, w, fields, depth+1, seen) {
+				return false
+			}
+		}
+		return true
+	case *ssa.Parameter:
+		fn := x.Parent()
+		k := -1
+		for i, q := range fn.Params {
+			if q == x {
+				k = i
+			}
+		}
+		sites := staticCallSites(p, fn)
+		if k < 0 || len(sites) == 0 {
+			return false
+		}
+		for _, s := range sites {
+			args := s.Common().Args
+			if k >= len(args) || !carriesFlag(p, args[k], fields, depth+1, seen) {
+				return false
+			}
+		}
+		return true
+	case *ssa.Phi:
+		for _, e := range x.Edges {
+			if !carriesFlag(p, e, fields, depth+1, seen) {
+				return false
+			}
+		}
+		return len(x.Edges) > 0
+	}
+	return false
+}
+
+// structFieldSources: the values that field k of a struct can hold, the
+// struct given as a value (or, with addr, as the address of a variable
+// holding it): a composite literal's field stores, a parameter's arguments,
+// a call's returned structs.
+func structFieldSources(p *Program, sv ssa.Value, k int, addr bool, depth int) ([]ssa.Value, bool) {
+	if depth > 6 {
+		return nil, false
+	}
+	var out []ssa.Value
+	fromAlloc := func(al *ssa.Alloc) bool {
+		if al.Referrers() == nil {
+			return false
+		}
+		for _, ref := range *al.Referrers() {
+			switch y := ref.(type) {
+			case *ssa.FieldAddr:
+				if y.Field != k || y.Referrers() == nil {
+					continue
+				}
+				for _, r2 := range *y.Referrers() {
+					if st, ok := r2.(*ssa.Store); ok && st.Addr == ssa.Value(y) {
+						out = append(out, st.Val)
+					}
+				}
+			case *ssa.Store:
+				if y.Addr == ssa.Value(al) {
+					vals, ok := structFieldSources(p, y.Val, k, false, depth+1)
+					if !ok {
+						return false
+					}
+					out = append(out, vals...)
+				}
+			}
+		}
+		return true
+	}
+	if addr {
+		al, ok := sv.(*ssa.Alloc)
+		if !ok {
+			return nil, false
+		}
+		if !fromAlloc(al) {
+			return nil, false
+		}
+		return out, true
+	}
+	switch x := sv.(type) {
+	case *ssa.UnOp:
+		if al, ok := x.X.(*ssa.Alloc); ok && x.Op == token.MUL {
+			if !fromAlloc(al) {
+				return nil, false
+			}
+			return out, true
+		}
+	case *ssa.Parameter:
+		fn := x.Parent()
+		idx := -1
+		for i, q := range fn.Params {
+			if q == x {
+				idx = i
+			}
+		}
+		sites := staticCallSites(p, fn)
+		if idx < 0 || len(sites) == 0 {
+			return nil, false
+		}
+		for _, s := range sites {
+			args := s.Common().Args
+			if idx >= len(args) {
+				return nil, false
+			}
+			vals, ok := structFieldSources(p, args[idx], k, false, depth+1)
+			if !ok {
+				return nil, false
+			}
+			out = append(out, vals...)
+		}
+		return out, true
+	case *ssa.Call:
+		g := x.Call.StaticCallee()
+		if g == nil || len(g.Blocks) == 0 {
+			return nil, false
+		}
+		for _, b := range g.Blocks {
+			if ret, ok := terminator(b).(*ssa.Return); ok && len(ret.Results) == 1 {
+				vals, ok := structFieldSources(p, ret.Results[0], k, false, depth+1)
+				if !ok {
+					return nil, false
+				}
+				out = append(out, vals...)
+			}
+		}
+		return out, true
+	case *ssa.Phi:
+		for _, e := range x.Edges {
+			vals, ok := structFieldSources(p, e, k, false, depth+1)
+			if !ok {
+				return nil, false
+			}
+			out = append(out, vals...)
+		}
+		return out, true
+	}
+	return nil, false
 }
